@@ -87,6 +87,14 @@ CHECKS["C18"] = ("exploration",
     "weights and multi-output.",
     "DESIGN.md §3 C18")
 
+CHECKS["C06"] = ("exploration",
+    "runtime post-fit invariant monitors with brute-force cityblock distances; hook on the M-step (_centers_dense) "
+    "and E-step (_labels_inertia); exact differential against sklearn KMeans for norm='L2'; tie-hunt stress workload",
+    "Every fitted L1 model is checked for nearest-centre labels, inertia, centre range, predict and transform on 12 "
+    "hostile data classes (ties, duplicates, n==k, empty clusters, float32); ~43k (thorough ~430k) tiny fits on "
+    "count tables hunt the rare tie between iterations; L2 must be array-equal to KMeans.",
+    "DESIGN.md §3 C06")
+
 PENDING = {}
 
 
